@@ -879,7 +879,7 @@ pub fn run_c12(args: &Args, seed: u64, tier: &str, report: &Report) -> String {
         if shard < (if thorough { 16 } else { 6 }) {
             if let Some((fen, moves, p)) = random_position(&mut rng, &roots, &mut l) {
                 let queens = p.b.iter().flatten().filter(|pc| pc.k == Kind::Q).count();
-                if queens < 6 && !p.legal_moves().is_empty() {
+                if queens <= 2 && !p.legal_moves().is_empty() {
                     if let Some((g, _)) = build_game(&fen, &moves) {
                         let late = [2300u64, 5200, 10_400][shard % 3];
                         let d = 4 + rng.below(3) as u8;
@@ -898,14 +898,14 @@ pub fn run_c12(args: &Args, seed: u64, tier: &str, report: &Report) -> String {
             report.merge_local(&mut l);
         }
         // (c) one lockstep game per shard (thorough: four)
-        for _ in 0..(if thorough { 4 } else { 1 }) {
+        for _ in 0..(if thorough { 2 } else { 1 }) {
             let mut pool: Vec<(String, Vec<String>)> = vec![];
             let mut guard = 0;
             while pool.len() < 4 && guard < 200 {
                 guard += 1;
                 if let Some((fen, moves, p)) = random_position(&mut rng, &roots, &mut l) {
                     let queens = p.b.iter().flatten().filter(|pc| pc.k == Kind::Q).count();
-                    if queens < 6 && !p.legal_moves().is_empty() {
+                    if queens <= 2 && !p.legal_moves().is_empty() {
                         pool.push((fen, moves));
                     }
                 }
